@@ -111,6 +111,13 @@ theorem dropped_only_by_own_fault (ss : Streams) (hnd : Nodup ss) (env : Nat →
     ReadAns.err ∈ (env sid).reads ∨ ReadAns.eof ∈ (env sid).reads ∨ ProcAns.fatal ∈ (env sid).procs :=
   Proofs.Inbound.dropped_only_by_own_fault ss hnd env order hord sid s hs hgone
 
+/-- … also when `SelectAll` presents a substream several times in one call (its processing future —
+a custom multihasher that is not ready at its first poll — woke itself): no assumption on `order`. -/
+theorem dropped_only_by_own_fault_any (ss : Streams) (env : Nat → Env) (order : List Nat) (sid : Nat)
+    (s : S) (hs : ss.lookup sid = some s) (hgone : (selectPoll ss env order).1.lookup sid = none) :
+    ReadAns.err ∈ (env sid).reads ∨ ReadAns.eof ∈ (env sid).reads ∨ ProcAns.fatal ∈ (env sid).procs :=
+  Proofs.Inbound.dropped_only_by_own_fault_any ss env order sid s hs hgone
+
 /-- A dropped substream never forwards anything again. -/
 theorem gone_is_silent (ss : Streams) (env : Nat → Env) (order : List Nat) (sid m : Nat)
     (hgone : ss.lookup sid = none) : (selectPoll ss env order).2 ≠ some (sid, m) :=
